@@ -96,4 +96,29 @@ theorem listGet_zero {α : Type} [Inhabited α] (x : α) (xs : List α) : Go.lis
   simp [Go.listGet]
 
 
+section
+variable {α σ ρ : Type}
+/-- as `searchFold`, but leaving the loop also fixes the final state -/
+def searchFold2 (step : σ → α → Sum σ (ρ × σ)) : σ → List α → Option ρ × σ
+  | s, [] => (none, s)
+  | s, a :: as =>
+    match step s a with
+    | .inl s' => searchFold2 step s' as
+    | .inr (r, s') => (some r, s')
+
+theorem forIn_searchFold2 (body : α → Option ρ × σ → Go.M (ForInStep (Option ρ × σ)))
+    (step : σ → α → Sum σ (ρ × σ))
+    (h : ∀ a s, body a (none, s) = pure (match step s a with
+      | .inl s' => ForInStep.yield (none, s') | .inr (r, s') => ForInStep.done (some r, s')))
+    (xs : List α) (s : σ) : forIn xs (none, s) body = pure (searchFold2 step s xs) := by
+  induction xs generalizing s with
+  | nil => rfl
+  | cons a as ih =>
+    rw [List.forIn_cons, h a s]
+    unfold searchFold2
+    cases step s a with
+    | inl s' => simpa using ih s'
+    | inr r => obtain ⟨r, s'⟩ := r; simp
+end
+
 end GoLoop
